@@ -86,6 +86,10 @@ def cases(draw):
     add("optstr8_in", [["x", ["opt", ["str", None, "str8", "std"], "std"], []]], ["prim", "u8"])
     add("optbytes_in", [["x", ["opt", ["slice", None, False, "u8", "std"], "std"], []], ["tail", ["prim", "i32"], []]], ["prim", "bool"])
     add("optwords_in", [["x", ["opt", ["slice", None, False, "u32", "std"], "std"], []]], ["prim", "u8"])
+    # a unit payload: Option<()> / DiplomatOption<()> carries only the flag
+    add("std_optunit_out", [], ["opt", ["unit"], "std"])
+    add("dip_optunit_out", [], ["opt", ["unit"], "dip"])
+    twins.append(("std_optunit_out", "dip_optunit_out"))
     add("optbox_out", [], ["opt", ["box", host["name"], []], "std"])
     methods.append({"name": "optref_out", "attrs": [], "lifetimes": [["a", []]], "self": ["ref", "a", False], "params": [], "ret": ["opt", ["ref", "a", False, host["name"], []], "std"]})
     methods.append({"name": "optmut_out", "attrs": [], "lifetimes": [["a", []]], "self": ["ref", "a", True], "params": [], "ret": ["opt", ["ref", "a", True, host["name"], []], "std"]})
